@@ -21,6 +21,16 @@ broadcast use crate::prelude::group_felt;
 //@from_variants crates/air/src/layout/mod.rs PublicInputError
 //@from_variants crates/air/src/layout/mod.rs CheckAssertsError
 
+//@repo crates/air/src/layout/mod.rs fn safe_div props=C18
+pub fn safe_div(value: Felt, divisor: Felt) -> (r: Result<Felt, FeltIsZeroError>)
+    ensures
+        r.is_ok() <==> divisor@ != 0, // [C18:zero-divisor-is-an-error-not-a-panic]
+        r.is_ok() ==> r->Ok_0@ == value@ / divisor@,
+{
+    Ok(value.floor_div(&NonZeroFelt::try_from(divisor)?))
+}
+//@end
+
 /// GHOST trait (not in the repository): the mathematical description of a layout that the two
 /// repository traits are specified against.
 pub trait LayoutSpec {
